@@ -399,7 +399,7 @@ def judgeLine (c : Ctx) (root : Tree) (rootId : Nat) (r : Res) (line : String) :
             (if hexOfString (nodeString c.lang info.raw info.alias) == answer && hasHiddenMissing c.lang info.raw info.alias
              then "sx:hidden-missing-printed" else "sx")
           else if !explained && navPort.isSome then op ++ ":unexplained"
-          else if op == "cbf" && answer == "-" && info.raw.data.symbol == symError then "cbf:error-parent-has-no-field-map"
+          else if (op == "cbf" || op == "cbn") && answer == "-" && info.raw.data.symbol == symError then "cbf:error-parent-has-no-field-map"
           else if (op == "ns" || op == "nns") && zeroWidth then op ++ ":zero-width-sibling-skipped"
           else if (op == "ps" || op == "pns") && c.ft.sb k == c.ft.eb k then op ++ ":zero-width-self"
           else if (op == "dbr" || op == "ndbr" || op == "dpr" || op == "ndpr") &&
